@@ -91,9 +91,50 @@ def program_units(tier, h, stds=("f2003", "f2008"), ics=(True,), k=None, lens=No
     return units
 
 
+def corpus_units(tier, h, stds=("f2003", "f2008"), extra=None):
+    """units over the programs harvested from the repository's own tests (vh/corpus.json): one
+    letter/digit inside a name or number symbolic"""
+    from sse import harvest
+    us = []
+    k = 0
+    for c in harvest.corpus():
+        spots = c["spots"]
+        n = 2 if tier == "quick" else 8
+        step = max(1, len(spots) // n)
+        for sp in spots[::step][:n]:
+            k += 1
+            std = stds[k % len(stds)]
+            if std == "f2003" and not c["f2003"]:
+                std = "f2008"
+            if std == "both" and not c["f2003"]:
+                continue
+            u = dict(h=h, ctext=str(c["text"]), spot=[int(x) for x in sp], sym={}, std=std, ic=True, cost=3)
+            if extra:
+                u.update(extra)
+            us.append(u)
+    return us
+
+
 def build(ctx, comments=False):
     """program text of the unit ctx.p (holes created here)"""
     p = ctx.p
+    if "ctext" in p:
+        text = p["ctext"]
+        i, a, b = p["spot"]
+        ch = text[i]
+        dom = "digit" if ch.isdigit() else ("upper" if ch.isupper() else "lower")
+        others = text[a:i] + text[i + 1:b]
+        if dom == "digit" and others == "0" * len(others):
+            dom = "digit1"      # a statement label / literal must not become zero
+        c = ctx.chars("c", 1, dom)
+        word = text[a:i] + c + text[i + 1:b]
+        low = word.lower()
+        for k in G.bad_names(b - a):
+            G.require(ctx, low != k)
+        src = text[:i] + c + text[i + 1:]
+        if not src.endswith("\n"):
+            src = src + "\n"
+        return src, {}
     vals = G.make_holes(ctx, p.get("sym", {}))
     src = G.program_text(p["prog"], vals)
     return src, vals
